@@ -59,6 +59,10 @@ PREFER["9"] = ("Eight earlier changes per property are listed above. This time m
                "or more states, NPA level 2, three repetitions) while small cases stay exactly right; or (cc) it should concern a function, argument or "
                "clause of the statement that the list above shows to be the least covered. Keep the result silently wrong (no exception). Do NOT reuse "
                "any mechanism named in the list above.")
+PREFER["10"] = ("Nine earlier changes per property are listed above. Read the STATEMENT sentence by sentence and the QUANTIFIED OVER line item by item; "
+                "for each sentence / item note which earlier change (if any) targets it; then seed your change against the sentence or item that is "
+                "covered least, in a function and branch no earlier change touched. The result must stay silently wrong (no exception, plausible "
+                "values), must need something specific to show (say what in meta.json) and must not reuse a mechanism from the list above.")
 TEMPLATE = open(os.path.join(os.path.dirname(os.path.abspath(__file__)), "seedprompt.template.txt")).read()
 os.makedirs(f"/tmp/seeded{ROUND}", exist_ok=True)
 for line in open("/verif/properties.jsonl"):
